@@ -19,8 +19,8 @@ TECHNIQUE = ('differential runtime monitor: real parser+evaluator vs reference B
 RULE = ('strata: A = every grammatical token sequence over {(,),and,or,not,check} up to the length bound, '
         'leaves numbered left to right; B = random ASTs (<= ~60 tokens, leaf reuse, constants) each in '
         'several lexical variants (keyword case, ASCII whitespace, glued parentheses, redundant groups); '
-        'C = every list-of-lists shape (outer<=3, inner<=3) over {leaf, other leaf, @, !, bare string, '
-        'empty entry}; K = constant rules; F = slice of A/B carried through real JSON and YAML policy files. '
+        'D = deeply nested legal expressions (1-40 chained not, alternating and/or/not towers of depth 2-25, within ~60 tokens); C = every list-of-lists shape (outer<=3, inner<=3) over {leaf, other leaf, @, !, bare string, '
+        'empty entry}; K = constant rules; every seventh sentence of A is parsed immediately after a malformed rule (lone operator, unbalanced parenthesis, dangling operator ...) in the same thread; F = slice of A/B carried through real JSON and YAML policy files. '
         'Each case is decided under all 2^k role (or attribute) assignments. A case is non-trivial when its '
         'reference truth table is not constant; distinct = distinct rule value.')
 ASSUMPTIONS = [
@@ -35,7 +35,7 @@ LEVEL_TEXT = ('Every grammatical sentence up to 11 (thorough: 13) tokens and eve
 LEVEL_NOTE = ('trusted: the reference evaluator/recogniser in pv/gen/expr.py; leaf checks (role:, attribute) behave as '
               'C04/C05 state; only ASCII whitespace is generated')
 PLAN = {'quick': dict(shards=4, wall=60), 'thorough': dict(shards=16, wall=420)}
-MIN = {'evaluations': 200, 'decisions': 2000, 'allow_decisions': 100, 'deny_decisions': 100}
+MIN = {'deep_cases': 20, 'parsed_after_malformed_rule': 100, 'evaluations': 200, 'decisions': 2000, 'allow_decisions': 100, 'deny_decisions': 100}
 ANCHORS = ['oslo_policy.policy:Enforcer.enforce', 'oslo_policy._parser:parse_rule',
            'oslo_policy._parser:_parse_tokenize', 'oslo_policy._parser:_parse_list_rule',
            'oslo_policy._parser:ParseState._wrap_check', 'oslo_policy._parser:ParseState._make_and_expr',
@@ -66,9 +66,15 @@ class Real:
         self.conf = env.fresh_conf()
         self.enf = policy.Enforcer(self.conf, use_conf=False)
 
-    def table(self, value, k, family, via='dict', fmt='json'):
-        """Decision for every truth assignment: list of bool / 'EXC:Type'."""
+    def table(self, value, k, family, via='dict', fmt='json', poison=None):
+        """Decision for every truth assignment: list of bool / 'EXC:Type'.  `poison`: a malformed rule that is loaded
+        immediately before (same thread, same parser) - parsing one rule must not influence the next."""
         creds_of = FAMILIES[family][1]
+        if poison is not None:
+            try:
+                self.policy.Rules.from_dict({'poison': poison})
+            except Exception:
+                pass
         if via == 'dict':
             enf = self.enf
             enf.set_rules(self.policy.Rules.from_dict({'p': value}))
@@ -110,7 +116,9 @@ def check_case(ctx, real, case):
         ast = expr.parse_tokens(toks)          # grammatical by construction
         text = ' '.join(leaf_text(t[1]) if isinstance(t, tuple) else t for t in toks)
         want = ref_table(ast, k)
-        got = real.table(text, k, fam, case.get('via', 'dict'), case.get('fmt', 'json'))
+        got = real.table(text, k, fam, case.get('via', 'dict'), case.get('fmt', 'json'), case.get('poison'))
+        if case.get('poison') is not None:
+            ctx.count('parsed_after_malformed_rule')
         record(ctx, case, text, got, want, 'A')
     elif s == 'B':
         ast = totuple(case['ast'])
@@ -128,6 +136,15 @@ def check_case(ctx, real, case):
                 ctx.violation('variant-disagreement', dict(case, text=text),
                               {'variant_a': first[0], 'decisions_a': first[1],
                                'variant_b': text, 'decisions_b': got})
+    elif s == 'D':
+        ast = totuple(case['ast'])
+        k = case['k']
+        want = ref_table(ast, k)
+        text = expr.spell(expr.to_tokens(ast, leaf_text))
+        got = real.table(text, k, fam)
+        ctx.count('deep_cases')
+        ctx.observe('nesting_depths', case['depth'])
+        record(ctx, dict(case, text=text), text, got, want, 'D', key='deep-nesting-mismatch')
     elif s == 'C':
         value = case['value']
         k = 2
@@ -210,11 +227,33 @@ def list_shapes(tier):
         yield list(outer)
 
 
+POISON = ['not', '(', ')', 'and', 'or', 'NOT', '"q"', "'q'", 'role:a role:b', '(role:a', 'role:a)', 'not not', 'role:a and',
+          'or role:a', '((', 'not (', '( not', 'role:a or or role:b', '@ !', 'not and']
+
+
+def deep_asts():
+    """Deeply nested but legal expressions within ~60 tokens: chains of not, alternating and/or/not towers."""
+    for d in range(1, 41):
+        ast = ('leaf', 0)
+        for _ in range(d):
+            ast = ('not', ast)
+        yield d, ast, 1
+    for d in range(2, 26):
+        for variant in range(4):
+            ast = ('leaf', d % 5)
+            for lvl in range(d, 0, -1):
+                leaf = ('leaf', lvl % 5)
+                op = ('and', 'or')[(lvl + variant) % 2]
+                inner = ast if (lvl + variant) % 3 else ('not', ast)
+                ast = (op, [leaf, inner] if variant < 2 else [inner, leaf])
+            yield d, ast, 5
+
+
 # -- workload -----------------------------------------------------------------
 def cases(ctx):
     b = BOUNDS[ctx.tier]
     idx = 0
-    for name in 'AC':
+    for name in 'ACD':
         ctx.stratum(name, exhaustive=False)
     # K: constants (all transports)
     for value, allow in (('', True), ([], True), ('@', True), ('!', False), ('  @  ', True), ('(@)', True),
@@ -232,12 +271,19 @@ def cases(ctx):
                 idx += 1
                 continue
             case = dict(s='A', toks=list(seq), fam='role' if idx % 3 else 'attr')
+            if idx % 7 == 3:
+                case['poison'] = POISON[(idx // 7) % len(POISON)]
             if idx % b['file_every'] == 0:
                 case.update(via='file', fmt='yaml' if (idx // b['file_every']) % 2 else 'json')
             idx += 1
             yield case
     ctx.stratum('A', exhaustive=True)
     ctx.count('A_space_size_seen_by_this_shard', total)
+    # D: deep nesting
+    for i, (d, ast, k) in enumerate(deep_asts()):
+        if ctx.mine(i):
+            yield dict(s='D', ast=ast, k=k, depth=d, fam='role' if i % 2 else 'attr')
+    ctx.stratum('D', exhaustive=True)
     # C: exhaustive list shapes
     for i, value in enumerate(list_shapes(ctx.tier)):
         if ctx.mine(i):
